@@ -147,7 +147,8 @@ def frobenius_op(prog, level, timeout_ms=60000):
         s.add(*path.pc)
         if s.check() != z3.sat:
             raise Inconclusive("path condition unsatisfiable")
-        k = s.model().eval(power, model_completion=True).as_long() % period
+        p1 = s.model().eval(power, model_completion=True).as_long()
+        k = p1 % period
         s2 = z3.Solver()
         s2.add(*path.pc)
         s2.add(z3.URem(power, z3.BitVecVal(period, 32)) != k)
@@ -157,7 +158,7 @@ def frobenius_op(prog, level, timeout_ms=60000):
             pw = s2.model().eval(power, model_completion=True).as_long()
             raise Violation("%s::frobenius_map:index" % CLASS[level],
                             "table index for power=%d coincides with that of a power in another residue class mod %d" % (pw, period),
-                            {"function": fname, "level": level, "method": "frobenius_map", "power": pw})
+                            {"function": fname, "level": level, "method": "frobenius_map", "power": pw, "powers": [pw, p1]})
         if r != z3.unsat:
             raise Inconclusive("solver unknown on index arithmetic")
         seen.add(k)
@@ -310,6 +311,17 @@ def replay_tower(res, config="A"):
     in_levels = ce.get("in_levels") or [level]
     alias = ce.get("alias") or []
     power = ce.get("power", 0) or 0
+    if ce.get("powers") and not ce.get("_power_loop"):
+        # several candidate powers (table-index collision): the violation reproduces if any of them does
+        for pw in ce["powers"]:
+            sub = dict(ce, power=pw, _power_loop=True)
+            class R_:
+                counterexample = sub
+            if replay_tower(R_, config):
+                ce["native_replay"] = sub.get("native_replay")
+                ce["power"] = pw
+                return True
+        return False
     rng = random.Random(int(os.environ.get("VERIF_SEED", "0")) + 1)
     ring = dom_ring.Ring(Q)
     T = tower.Tower(ring, 0)
